@@ -271,3 +271,49 @@ Proof.
   revert r; induction a as [|o a IH]; intros r; cbn [app apply_ops obind]; [reflexivity|].
   destruct (apply_op o r); cbn [obind]; [apply IH|reflexivity].
 Qed.
+
+(** going up one level: the selector of the parent, and the last step *)
+Lemma frames_ok_unsnoc p : forall ctx st fr sg,
+  frames_ok (p ++ [st]) (ctx ++ [fr]) sg ->
+  frames_ok p ctx (f_tag fr, f_attrs fr) /\
+  find_sig st (map sig_of (f_left fr) ++ sg :: map sig_of (f_right fr)) = Some (lenZ (f_left fr)).
+Proof.
+  induction p as [|s0 p IH]; intros [|f0 ctx] st fr sg H; cbn [app frames_ok] in H.
+  - destruct H as [H _]. cbn [hsig] in H. split; [exact I|exact H].
+  - destruct H as [_ H]. destruct ctx; cbn in H; contradiction.
+  - destruct H as [_ H]. destruct p; cbn in H; contradiction.
+  - destruct H as [H0 H]. destruct (IH ctx st fr sg H) as [H1 H2]. split; [|exact H2].
+    cbn [frames_ok]. split; [|exact H1]. now rewrite hsig_snoc in H0.
+Qed.
+
+Lemma rev_case {A} (l : list A) : l = [] \/ exists l' x, l = l' ++ [x].
+Proof. induction l using rev_ind; [now left|right; eauto]. Qed.
+
+Lemma replace_located P ctx e x : located P ctx (sig_of e) ->
+  apply_op (OReplace P x) (plug ctx e) = Some (plug ctx x).
+Proof.
+  destruct P as [|r pp]; cbn [located]; [tauto|]. intros [Hr Hf].
+  destruct (rev_case ctx) as [->|(ctx0 & fr & ->)].
+  - destruct pp; [|cbn in Hf; contradiction]. cbn [apply_op plug]. cbn [hsig] in Hr.
+    now rewrite root_match_is, Hr.
+  - destruct (rev_case pp) as [->|(pp0 & st & ->)].
+    { apply frames_ok_length in Hf. rewrite app_length in Hf. cbn in Hf. lia. }
+    destruct (frames_ok_unsnoc pp0 ctx0 st fr (sig_of e) Hf) as [Hf0 Hsel].
+    assert (HL0 : located (r :: pp0) ctx0 (f_tag fr, f_attrs fr)).
+    { cbn [located]. split; [|exact Hf0]. now rewrite hsig_snoc in Hr. }
+    set (par := Elem (f_tag fr) (f_attrs fr) (f_text fr) (f_left fr ++ e :: f_right fr)).
+    assert (Hpl : forall y, plug (ctx0 ++ [fr]) y = plug ctx0 (Elem (f_tag fr) (f_attrs fr) (f_text fr) (f_left fr ++ y :: f_right fr))).
+    { intros y. apply plug_snoc. }
+    assert (Hfc : find_child st (f_left fr ++ e :: f_right fr) = Some (lenZ (f_left fr))).
+    { unfold find_child. rewrite map_app. cbn [map]. exact Hsel. }
+    cbn [apply_op]. change (r :: pp0 ++ [st]) with ((r :: pp0) ++ [st]).
+    destruct pp0 as [|s1 pp1]; cbn [app];
+      [change [r; st] with ([r] ++ [st])|change (r :: s1 :: pp1 ++ [st]) with ((r :: s1 :: pp1) ++ [st])];
+      rewrite (Hpl e); fold par.
+    + rewrite (at_parent_located [r] ctx0 par st _ HL0). unfold par at 1. cbn [e_children].
+      rewrite Hfc. cbn [obind]. unfold par. cbn [e_children set_children e_tag e_attrs e_text].
+      rewrite replace_nth_app. now rewrite Hpl.
+    + rewrite (at_parent_located (r :: s1 :: pp1) ctx0 par st _ HL0). unfold par at 1. cbn [e_children].
+      rewrite Hfc. cbn [obind]. unfold par. cbn [e_children set_children e_tag e_attrs e_text].
+      rewrite replace_nth_app. now rewrite Hpl.
+Qed.
